@@ -108,6 +108,10 @@ func zeroLeaf(kind string) interface{} {
 	return nil // pstr, nullstr, bytes
 }
 
+// bindsZero: a nil value of a named byte-slice type is written as the literal
+// (NULL) by the generic value writer (an empty list); a nil []byte is bound.
+func bindsZero(kind string) bool { return kind != "raw" && kind != "hash" }
+
 // condLeaves: a struct used as condition or as Updates value contributes its non-zero fields in field order.
 func (r Rec) condLeaves() []interface{} {
 	var out []interface{}
@@ -126,7 +130,7 @@ func (r Rec) createLeaves(m Mode) []interface{} {
 	for i, col := range columnsOf(r.Table) {
 		if i < len(r.F) && r.F[i] != nil {
 			out = append(out, r.F[i].Leaves()...)
-		} else {
+		} else if bindsZero(col.kind) {
 			out = append(out, zeroLeaf(col.kind))
 		}
 	}
@@ -172,7 +176,7 @@ func (r Rec) saveUpdateLeaves(m Mode) []interface{} {
 	for i, col := range columnsOf(r.Table) {
 		if i < len(r.F) && r.F[i] != nil {
 			out = append(out, r.F[i].Leaves()...)
-		} else {
+		} else if bindsZero(col.kind) {
 			out = append(out, zeroLeaf(col.kind))
 		}
 	}
